@@ -64,15 +64,17 @@ Print Assumptions C17_read_literal_blind.
 (* Programs.  The modelled language is the inductive type [cinstr] of Michelson/Comb.v, i.e. exactly:
      PUSH ty lit, UNPACK ty, GET n, UPDATE n, PAIR n, UNPAIR n, CAR, CDR, PAIR, UNPAIR, COMPARE, EQ/NEQ/LT/GT/LE/GE,
      ADD/SUB/MUL on int and nat, PACK, DUP, SWAP, DROP, SOME, NONE ty, LEFT ty, RIGHT ty, UNIT, NIL ty, CONS,
-     sequencing, IF, IF_NONE, IF_LEFT, IF_CONS, DIP n, ITER and MAP over lists, LOOP
-   over int/nat/mutez/string/bytes/bool/unit/pair/option/or/list values (type arguments enter through PUSH, UNPACK,
-   NONE, LEFT, RIGHT, NIL; MAP builds a fresh list class from the anonymous type of the first result — the place of
-   defect #49).  [exec d n p s] runs the code list p with n units of fuel (consumed by LOOP iterations only) and
+     sequencing, IF, IF_NONE, IF_LEFT, IF_CONS, DIP n, ITER and MAP over lists, LOOP, LAMBDA ty ty code, EXEC, APPLY
+   over int/nat/mutez/string/bytes/bool/unit/pair/option/or/list/lambda values (type arguments enter through PUSH, UNPACK,
+   NONE, LEFT, RIGHT, NIL, LAMBDA; MAP builds a fresh list class from the anonymous type of the first result — the place
+   of defect #49; APPLY builds the new code PUSH (strip lt) lit ; PAIR ; body with every annotation of the captured
+   type dropped and gives the lambda the anonymous remaining parameter type — the places of defects #52 and #51: the
+   proof uses strip (f d) (tmap f t) = tmap f (strip d t) and anon (f d) (tmap f t) = tmap f (anon d t)).  [exec d n p s] runs the code list p with n units of fuel (consumed by LOOP iterations only) and
    returns Done stack / Fail / OutOfFuel.  For EVERY program of that language, every stack and every fuel: executing
    the re-annotated program on the re-annotated stack gives the re-annotated outcome — the same failure, the same
-   fuel exhaustion (so a run that terminates with fuel n terminates with the same n after re-annotation).
+   fuel exhaustion (so a run that terminates with fuel n terminates with the same n after re-annotation).  Fuel is consumed by LOOP iterations and EXEC calls only.
    PARTIAL with respect to the property text ("all programs over the core instruction set"): sets, maps, big_maps,
-   lambdas (LAMBDA/EXEC/APPLY), LOOP_LEFT, strings/bytes operations, mutez/timestamp arithmetic, domain types and
+   LOOP_LEFT, LAMBDA_REC, strings/bytes operations, mutez/timestamp arithmetic, domain types and
    operations are not in [cinstr]; they are covered by the twins-only stream of the harness, not by this theorem. *)
 Theorem C17_exec_annotation_blind_partial : forall {A B} (f : A -> B) d n p s,
   exec (f d) n (map (imap f) p) (map (gmap f) s) = omap (map (gmap f)) (exec d n p s).
@@ -130,3 +132,13 @@ Example C17_ex_map_loop :
   exec no_ann 2 [IPushT (TyPrim no_ann T_bool) (NPrim P_True [] []); ILoop (IPushT (TyPrim no_ann T_bool) (NPrim P_True [] []))] []
   = OutOfFuel.
 Proof. repeat split; vm_compute; reflexivity. Qed.
+
+(* APPLY on a lambda whose parameter pair is annotated: the captured type is pushed stripped, the remaining parameter
+   type is anonymous; then EXEC *)
+Example C17_ex_apply :
+  run_prog [ILambda ex_pair_ty (TyPrim no_ann T_int) ICar; IPushT (TyPrim (ex_a [x7a]) T_int) (NInt 5); IApply]
+  = Done [GLam no_ann (TyPrim no_ann T_nat) (TyPrim no_ann T_int)
+            (ISeq (IPushT (TyPrim no_ann T_int) (NInt 5)) (ISeq IPair ICar))] /\
+  run_prog [ILambda ex_pair_ty (TyPrim no_ann T_int) ICar; IPushT (TyPrim no_ann T_int) (NInt 5); IApply;
+            IPushT (TyPrim no_ann T_nat) (NInt 1); IExec] = Done [GInt no_ann T_int 5].
+Proof. split; vm_compute; reflexivity. Qed.
